@@ -50,6 +50,7 @@ def run(ctx):
     ctx.rule("R1.controls", "positive controls: the driver's answers for plain std types match the language rules", floor=5)
     ctx.rule("R2.unsafe-impl-census", "every unsafe impl of Send/Sync is in the justified table with exactly the listed where-clauses", floor=8)
     ctx.rule("R3.storage-by-type", "managed handles own Arc<Mutex<pool>> (directly or through their Remover), local ones Rc<RefCell<pool>>; safe insertion APIs of thread-safe pools require T: Send; RawOpaquePoolThreadSafe::new is unsafe", floor=12)
+    ctx.rule("R5.last-drop-destroys", "the Drop of every managed unique handle / managed Remover takes the pool lock unconditionally (blocking `lock`) and reaches the removal on every normal path", floor=4)
     ctx.rule("R4.single-remover", "RawOpaquePoolThreadSafe::remove/remove_unpin are called only from the managed unique handles' Drop/into_inner and the managed Removers' Drop", floor=6)
 
     pf = F.probe_facts("infinity_pool_probe", ["infinity_pool"], repo=ctx.repo, log=ctx.log)
@@ -224,3 +225,22 @@ def run(ctx):
         ctx.ob("R4.single-remover", inst, b.key in ALLOWED, b.loc(t["span"]),
                "caller is a managed unique handle's Drop/into_inner or a managed Remover's Drop" if b.key in ALLOWED else
                "another function removes objects from a thread-safe pool: with reference-counted handles this is a second remover")
+
+    # ---------------- R5: drop of the last handle always destroys (no try_lock / early return)
+    from ..analysis import path_count
+    for key in sorted(k for k in ALLOWED if k.endswith("::drop")):
+        cands = [b for b in prog.bodies if b.key == key]
+        if not cands:
+            ctx.missing("R5.last-drop-destroys", key)
+            continue
+        b = cands[0]
+        ctx.fn(b)
+        rem = [(bb, t) for bb, t in b.calls() if callee_key(t["callee"]).split("::")[-1] in ("remove", "remove_unpin", "remove_unchecked")
+               and "pool" in callee_key(t["callee"]).lower()]
+        locks = [(bb, t) for bb, t in b.calls() if t["callee"].get("method") in ("lock", "try_lock", "get_mut", "into_inner", "is_poisoned")
+                 and callee_key(t["callee"]).rsplit("::", 1)[0].endswith("Mutex")]
+        lock_names = sorted({t["callee"].get("method") for _bb, t in locks})
+        pc = path_count(b, [bb for bb, _ in rem])
+        ok = pc == (1, 1) and lock_names == ["lock"]
+        ctx.ob("R5.last-drop-destroys", key.split("::handles::")[-1], ok, b.loc(),
+               f"removal calls per normal path (min,max)={pc}; mutex methods used: {lock_names} (need exactly the blocking `lock`)")
